@@ -209,8 +209,22 @@ def r15_1_2(ctx: Ctx) -> None:
         first = lst[0].elts[0] if lst and isinstance(lst[0], ast.List) and lst[0].elts else None
         ok = bool(rev) and isinstance(first, ast.Call) and txt(first.args[0]) == sc.ls
         form = f"{name} = [pre-origin, post-origin]; reversed on the reverse strand: {bool(rev)}"
-    elif comp and isinstance(comp[0].args[0], ast.List):
-        form = "parts passed in a fixed order for both strands"
+    elif comp and all(isinstance(c.args[0], ast.List) and len(c.args[0].elts) == 2 for c in comp):
+        # the order is chosen explicitly per strand: [pre-origin, post-origin] forward, [post-origin, pre-origin] reverse
+        orders = {}
+        for c in comp:
+            stmt = next(a for a in _ancestors(c) if isinstance(a, ast.stmt))
+            kinds = []
+            for elt in c.args[0].elts:
+                part = inline_reaching(cfg, stmt, elt)
+                first_arg = part.args[0] if isinstance(part, ast.Call) and call_name(part) == "FeatureLocation" and part.args else None
+                kinds.append("post" if isinstance(first_arg, ast.Constant) and first_arg.value == 0
+                             else "pre" if first_arg is not None and txt(first_arg) == sc.ls else "?")
+            orders[_direction_of(path_facts(cfg, stmt), sc.direction) or "any"] = kinds
+        ok = orders.get("reverse") == ["post", "pre"] and (orders.get("forward") or orders.get("any")) == ["pre", "post"]
+        form = f"orders by strand: {orders}"
+        if len(comp) == 1:
+            form = "parts passed in a fixed order for both strands"
     ctx.ob("R15.5", ORF, comp[0] if comp else func, qual, "strand order of parts", ok,
            "the two parts of an origin-crossing ORF are listed in reading order: pre-origin first on the forward strand, "
            "post-origin first on the reverse strand (otherwise extraction yields the two halves swapped)", form=form)
